@@ -176,7 +176,9 @@ Piece(tok) == CASE tok.t \in {"id", "num", "str", "libstr"} -> tok.t \o ":" \o t
                 [] OTHER -> tok.t
 Syn(tok) == CASE tok.t = "asg" -> {"asg2"}
               [] tok.t = "dot" -> {"dot2"}
-              [] tok.t = "op" /\ tok.v \in {"eq", "neq", "gt", "lt", "ge", "le"} -> {"op2:" \o tok.v}
+              \* comparison marks and keywords end the names around them: they may also be written with no blank at all ("opt", "op2t")
+              [] tok.t = "op" /\ tok.v \in {"eq", "neq", "gt", "lt", "ge", "le"} -> {"op2:" \o tok.v, "opt:" \o tok.v, "op2t:" \o tok.v}
+              [] tok.t = "op" /\ tok.v \in {"xeq", "xneq", "and", "or"} -> {"opt:" \o tok.v}
               [] tok.t \in {"lp", "rp", "col", "comma", "lb", "rb", "q", "bang"} -> {tok.t \o "2"}         \* ASCII punctuation
               [] OTHER -> {}
 \* prev = the token before (or a dummy): what may be inserted BEFORE this token
